@@ -1045,6 +1045,26 @@ func (ev *evaluator) call(x *ECall) Val {
 	case "sameArray":
 		a, b := ev.eval(x.Args[0]), ev.eval(x.Args[1])
 		return Val{t: mkAnd(mkEq(c.slRef(a.t), c.slRef(b.t)), mkEq(c.slOff(a.t), c.slOff(b.t))), typ: types.Typ[types.Bool]}
+	case "sprintf":
+		// sprintf(format, a, b, ...): the string fmt.Sprintf(format, a, b, ...) as an uninterpreted function
+		// of the format and the argument values (the same term the executor builds at the call)
+		var ts []*T
+		for i, a := range x.Args {
+			v := ev.eval(a)
+			if i == 0 {
+				ts = append(ts, ev.term(ev.typed(v, types.Typ[types.String])))
+				continue
+			}
+			if v.typ == nil || v.konst != nil {
+				v = ev.typed(v, types.Typ[types.String])
+			}
+			t := ev.term(v)
+			if t.sort != "Iface" {
+				t = c.mkIface(v.typ, t)
+			}
+			ts = append(ts, t)
+		}
+		return Val{t: c.sprintfTerm(ts), typ: types.Typ[types.String]}
 	case "str":
 		// str(b): the string with the bytes of slice b (Go's string(b))
 		a := ev.eval(x.Args[0])
